@@ -607,6 +607,36 @@ def read_rules(F, R, variant):
             if root_call_bb(strip(e)) == rbb or (e[0] == "agg" and e[2] and root_call_bb(strip(e[2][0])) == rbb):
                 fw = True
     R.ob("R7.result-forwarded", fn, "return", fw, "the pipe's own result (count or error) is what the caller gets", where=b["span"])
+    # R7e: an error from the pipe always comes back to the caller as that error (never re-labelled as "not ready", never retried here)
+    fwd_err, nep = bool(err_edges), 0
+    why = ""
+    for (sbb, tb) in err_edges:
+        for p in body.paths(tb):
+            if body.term(p[-1]) != "return":
+                continue
+            nep += 1
+            last = None
+            for bb in p:
+                for s_ in body.stmts(bb):
+                    if s_["l"] and s_["l"]["v"] == 0 and not s_["l"]["p"]:
+                        last = s_["r"]
+            if last is None:
+                # the return place was assigned before the switch (e.g. `res` moved into _0 earlier): accept if such a store derives from the read
+                pre = [s_["r"] for bb, i, s_ in body.assigns() if s_["l"]["v"] == 0 and not s_["l"]["p"] and body.dominates(bb, sbb)]
+                last = pre[-1] if pre else None
+            e = body.expr_of_rvalue(last) if last is not None else None
+            good = False
+            if e is not None:
+                x = strip(e)
+                if root_call_bb(x) == rbb:
+                    good = True
+                elif e[0] == "agg" and e[2] and root_call_bb(strip(e[2][0])) == rbb and not (isinstance(last.get("agg"), dict) and last["agg"].get("vname") == "Pending"):
+                    good = True
+            if not good:
+                fwd_err = False
+                why = " -- an error path returns something else (path %s)" % p[:10]
+    R.ob("R7.error-forwarded", fn, "Err-edge", fwd_err and nep > 0,
+         "every return reached from the Err edge of the pipe read hands that error to the caller (no conversion to Pending / retry inside read)%s" % why, where=b["span"])
 
 
 def _is_ok_payload(e):
